@@ -422,6 +422,22 @@ func cdsParse(a *anypb.Any) string {
 			lbok = "ringsize"
 		}
 	}
+	// ring sizes of a ring_hash LB policy (the CDS invariant bounds them: min <= max <= 8M)
+	rh := "-"
+	var pol []map[string]json.RawMessage
+	if json.Unmarshal(u.LBPolicy, &pol) == nil {
+		for _, m := range pol {
+			if raw, ok := m["ring_hash_experimental"]; ok {
+				var sz struct {
+					Min uint64 `json:"minRingSize"`
+					Max uint64 `json:"maxRingSize"`
+				}
+				if json.Unmarshal(raw, &sz) == nil {
+					rh = fmt.Sprintf("%d:%d", sz.Min, sz.Max)
+				}
+			}
+		}
+	}
 	odok := 1
 	if u.OutlierDetection != nil && !json.Valid(u.OutlierDetection) {
 		odok = 0
@@ -430,8 +446,8 @@ func cdsParse(a *anypb.Any) string {
 	if u.MaxRequests != nil {
 		mr = strconv.FormatUint(uint64(*u.MaxRequests), 10)
 	}
-	return fmt.Sprintf("ok %s %d %s %s %d %s %d %s", hx(u.ClusterName), int(u.ClusterType), hx(u.EDSServiceName), hx(u.DNSHostName),
-		len(u.PrioritizedClusterNames), lbok, odok, mr)
+	return fmt.Sprintf("ok %s %d %s %s %d %s %d %s %s", hx(u.ClusterName), int(u.ClusterType), hx(u.EDSServiceName), hx(u.DNSHostName),
+		len(u.PrioritizedClusterNames), lbok, odok, mr, rh)
 }
 
 // ---------------------------------------------------------------- LDS
